@@ -1,6 +1,6 @@
 """Bound tables: which harness instances make up each property's quick / thorough tier (DESIGN §4)."""
 import os
-from vdriver import Inst, run_tool, ROOT
+from vdriver import Inst, run_tool, ROOT, REPO
 
 PLAN = {}
 
@@ -431,9 +431,9 @@ def prereq_c09(workdir):
     for gating only, keyed by every file C09's encoding is generated from; C09's own check never reads it."""
     import json
     import vdriver
-    core = "/repo/weechess-core/src/"
+    core = REPO + "/weechess-core/src/"
     files = [core + f for f in ("attacks.rs", "board.rs", "common.rs", "utils.rs", "piece.rs", "color.rs", "lib.rs")]
-    files += ["/repo/weechess-core/Cargo.toml", "/repo/Cargo.lock"]
+    files += [REPO + "/weechess-core/Cargo.toml", REPO + "/Cargo.lock"]
     files += [os.path.join(ROOT, f) for f in ("harness/core/src/c09.rs", "harness/core/src/lib.rs", "harness/common/geo.rs",
                                               "harness/common/shim.rs", "tools/tabledump/src/main.rs", "lib/vdriver.py")]
     key = _sha(files)
@@ -464,7 +464,7 @@ def setup():
     rc_all = 0
     for crate in ("core", "engine"):
         cdir = os.path.join(ROOT, "harness", crate)
-        shutil.copyfile("/repo/Cargo.lock", os.path.join(cdir, "Cargo.lock"))
+        shutil.copyfile(REPO + "/Cargo.lock", os.path.join(cdir, "Cargo.lock"))
     # 1. the reference geometry against naive ray walking (native unit test of harness/common/geo.rs)
     env = dict(ENV)
     env["RUSTUP_TOOLCHAIN"] = "nightly"
